@@ -1422,6 +1422,12 @@ class C07(ExpectSpec):
            ('![a](i.png) <image:j.png|b> x', 0, '<p><img src="i.png" alt="a"> <img src="j.png" alt="b"> x</p>', 'images'),
            ('<_nobody_@example.org> <*me*@example.org> <a~~b~~c@x.org>', 0, '<p><a href="mailto:_nobody_@example.org">_nobody_@example.org</a> <a href="mailto:*me*@example.org">*me*@example.org</a> <a href="mailto:a~~b~~c@x.org">a~~b~~c@x.org</a></p>', 'url-not-reinterpreted'),
            ('<http://a.b/_x_> http://c.d/*y*z <image:_i_.png>', 0, '<p><a href="http://a.b/_x_">http://a.b/_x_</a> <a href="http://c.d/*y*z">http://c.d/*y*z</a> <img src="_i_.png" alt="_i_.png"></p>', 'url-not-reinterpreted'),
+           # captions that look like the element itself: the captioned form of a definition must win over the plain one
+           ('<joe@example.com|joe@work.example.org>', 0, '<p><a href="mailto:joe@example.com">joe@work.example.org</a></p>', 'caption-looks-like-element'),
+           ('<sales@acme.com|@acme> <j@x.org|j@x.org>', 0, '<p><a href="mailto:sales@acme.com">@acme</a> <a href="mailto:j@x.org">j@x.org</a></p>', 'caption-looks-like-element'),
+           ('<http://a.b|a.b> <http://c.d/e|c.d/e>', 0, '<p><a href="http://a.b">a.b</a> <a href="http://c.d/e">c.d/e</a></p>', 'caption-looks-like-element'),
+           ('x <image:i.png|i.png> <image:i.png|image:j.png>', 0, '<p>x <img src="i.png" alt="i.png"> <img src="i.png" alt="image:j.png"></p>', 'caption-looks-like-element'),
+           ('[j@k.lm](mailto:n@o.pq) [a.b](c.d)', 0, '<p><a href="mailto:n@o.pq">j@k.lm</a> <a href="c.d">a.b</a></p>', 'caption-looks-like-element'),
            ('<image:pic.png|say "hi"> [here](http://x.org/?q="1")', 0, '<p><img src="pic.png" alt="say &quot;hi&quot;"> <a href="http://x.org/?q=&quot;1&quot;">here</a></p>', 'quote-in-attribute')]
 
     def streams(self, ctx):
